@@ -573,6 +573,8 @@ def run(ck: Check, repo: Repo) -> None:
     c07.rule_tables_roundtrip(ck, repo, folder, "R8")
     rule_syntax_blind(ck, repo, folder, styles)
     rule_window_cut(ck, repo)
+    # an empty tag value parses to None: it must not be stored as an expression (shared with C07-R12)
+    c07.rule_parse_none(ck, repo, "R11")
     # order hazards met while folding (reported under C14, noted here)
     for h in folder.hazards:
         if "extract" in h.context:
